@@ -94,6 +94,42 @@ class Interp:
             [it.ew(lambda a, b: it.dom.sqrt(it.dom.mul(a, a) + it.dom.mul(b, b)), *iv)]
             if (any(is_sym(x) for x in iv) or it.dom.exact_concrete) else it.eval_closed(e.params["jaxpr"], iv))
 
+        self.named_calls["lstsq"] = self._lstsq_call
+        self.named_calls["_lstsq"] = self._lstsq_call
+
+    def _lstsq_call(self, it, e, iv):
+        """jnp.linalg.lstsq (SVD based): minimum-norm least squares.  1x1 systems are division by the (non-zero, A3)
+        entry; larger ones use the normal-equation contract (A4).  Only the solution is modelled: residuals, rank and
+        singular values are poisoned so that a goal depending on them cannot be discharged."""
+        if not (any(is_sym(x) for x in iv) or it.dom.exact_concrete):
+            return it.eval_closed(e.params["jaxpr"], iv)
+        arrs = [x for x in iv if np.ndim(x) >= 1]
+        A, B = it.obj(arrs[0]), it.obj(arrs[1])
+
+        def one(A, B):
+            if A.shape == (1, 1):
+                return np.vectorize(lambda b: it.dom.div(b, A[0, 0]), otypes=[object])(B)
+            return it.dom.lstsq(A, B)
+        if A.ndim == 2:
+            X = one(A, B)
+        else:
+            X = np.stack([one(A[i], B[i]) for i in range(A.shape[0])])
+        outs = []
+        from .poly import Poly
+        for k, ov in enumerate(e.outvars):
+            shp = tuple(ov.aval.shape)
+            if k == 0:
+                assert shp == X.shape, (shp, X.shape)
+                outs.append(X)
+            elif np.issubdtype(ov.aval.dtype, np.floating):
+                a = np.empty(shp, dtype=object)
+                for idx in np.ndindex(*shp):
+                    a[idx] = it.dom.fresh("lstsq_unmodelled") if hasattr(it.dom, "fresh") else Poly.var("__lstsq_unmodelled__")
+                outs.append(a)
+            else:
+                outs.append(np.zeros(shp, dtype=ov.aval.dtype))
+        return outs
+
     # ------------------------------------------------------------------ helpers
     def obj(self, a):
         """numeric array -> object array of domain constants (exact rationals)."""
